@@ -68,7 +68,7 @@ theorem sublist_eq_filter {l1 l2 : List Nat} (p : Nat → Bool) (hs : l1.Sublist
 /-! ### members of the specification's set -/
 
 /-- Every handle of the specification's set is a whitespace-only text node the rule selects. -/
-theorem removed_text {f : Forest} (nd : f.allHandles.Nodup) (hv : validList true f.roots = true)
+theorem removed_text {f : Forest} {b : Bool} (nd : f.allHandles.Nodup) (hv : validList b f.roots = true)
     {t : HTree} {anc : List HTree} (o : Occurs f t anc) {n : Nat} (hn : n ∈ specTopRemoved anc t) :
     ∃ k ancn, Occurs f k ancn ∧ k.handle = n ∧ k.value.isText = true ∧ topDeleted ancn k = true := by
   rw [← toRemove_eq nd hv o] at hn
@@ -77,7 +77,7 @@ theorem removed_text {f : Forest} (nd : f.allHandles.Nodup) (hv : validList true
   rw [isInsig_eq nd hv ok] at hi
   exact ⟨k, ancn, ok, rfl, hk, hi⟩
 
-theorem removed_nodup {f : Forest} (nd : f.allHandles.Nodup) (hv : validList true f.roots = true)
+theorem removed_nodup {f : Forest} {b : Bool} (nd : f.allHandles.Nodup) (hv : validList b f.roots = true)
     {t : HTree} {anc : List HTree} (o : Occurs f t anc) : (specTopRemoved anc t).Nodup := by
   rw [← toRemove_eq nd hv o]
   exact (List.filter_sublist.trans (descendantsNormal_sublist t)).nodup (o.nodup nd)
@@ -85,7 +85,7 @@ theorem removed_nodup {f : Forest} (nd : f.allHandles.Nodup) (hv : validList tru
 /-! ### frame -/
 
 /-- The handles after the call, in document order: the old ones minus the specification's set. -/
-theorem strip_handles {f : Forest} (nd : f.allHandles.Nodup) (hv : validList true f.roots = true)
+theorem strip_handles {f : Forest} {b : Bool} (nd : f.allHandles.Nodup) (hv : validList b f.roots = true)
     {t : HTree} {anc : List HTree} (o : Occurs f t anc) :
     (f.removeInsignificantWhitespace t.handle).allHandles =
       f.allHandles.filter (fun h => !(specTopRemoved anc t).contains h) := by
@@ -120,7 +120,7 @@ theorem strip_handles {f : Forest} (nd : f.allHandles.Nodup) (hv : validList tru
     exact this
 
 /-- A live handle is gone after the call iff it is in the specification's set. -/
-theorem strip_removed_iff {f : Forest} (nd : f.allHandles.Nodup) (hv : validList true f.roots = true)
+theorem strip_removed_iff {f : Forest} {b : Bool} (nd : f.allHandles.Nodup) (hv : validList b f.roots = true)
     {t : HTree} {anc : List HTree} (o : Occurs f t anc) {h : Nat} (hl : f.isLive h = true) :
     (f.removeInsignificantWhitespace t.handle).isLive h = false ↔ h ∈ specTopRemoved anc t := by
   have hh := strip_handles nd hv o
@@ -150,7 +150,7 @@ theorem strip_removed_iff {f : Forest} (nd : f.allHandles.Nodup) (hv : validList
     exact this.2 hm
 
 /-- Values and parents of everything outside the specification's set are untouched. -/
-theorem strip_frame {f : Forest} (nd : f.allHandles.Nodup) (hv : validList true f.roots = true)
+theorem strip_frame {f : Forest} {b : Bool} (nd : f.allHandles.Nodup) (hv : validList b f.roots = true)
     {t : HTree} {anc : List HTree} (o : Occurs f t anc) {h : Nat} (hR : h ∉ specTopRemoved anc t) :
     (f.removeInsignificantWhitespace t.handle).value? h = f.value? h ∧
     (f.removeInsignificantWhitespace t.handle).parent? h = f.parent? h := by
@@ -211,7 +211,7 @@ theorem Occurs.root_above {f : Forest} {t : HTree} {anc : List HTree} (o : Occur
     exact ⟨r, hr, fun h hh => hsub h ((handles_kid_sublist hk).subset hh)⟩
 
 /-- Trees that do not hold the start node are untouched. -/
-theorem strip_other_roots {f : Forest} (nd : f.allHandles.Nodup) (hv : validList true f.roots = true)
+theorem strip_other_roots {f : Forest} {b : Bool} (nd : f.allHandles.Nodup) (hv : validList b f.roots = true)
     {t : HTree} {anc : List HTree} (o : Occurs f t anc) {r : HTree} (hr : r ∈ f.roots)
     (hnot : t.handle ∉ handles r) : r ∈ (f.removeInsignificantWhitespace t.handle).roots := by
   rw [strip_eq_pruned nd hv o]
@@ -342,8 +342,12 @@ theorem strip_unfold_none {g : Forest} {n : Nat} (h : g.get? n = none) :
 
 theorem strip_unfold_some {g : Forest} {n : Nat} {t : HTree} (h : g.get? n = some t) :
     g.removeInsignificantWhitespace n =
-      ((Forest.descendantsNormal t).filter g.isInsignificantWhitespace).foldl (fun acc n => (acc.remove n).1) g := by
-  unfold Forest.removeInsignificantWhitespace; rw [h]
+      { ((Forest.descendantsNormal t).filter g.isInsignificantWhitespace).foldl
+          (fun acc n => (acc.remove n).1) (consOff g) with consolidation := g.consolidation } := by
+  unfold Forest.removeInsignificantWhitespace; rw [h]; rfl
+
+theorem consOff_restore (g : Forest) : { consOff g with consolidation := g.consolidation } = g := by
+  cases g; rfl
 
 theorem specTopRemoved_after (S : Nat → Bool) (anc : List HTree) (t : HTree)
     (hscope : chainScope (anc.map (pruneText S)) = chainScope anc)
@@ -358,7 +362,7 @@ theorem specTopRemoved_after (S : Nat → Bool) (anc : List HTree) (t : HTree)
   exact specRemoved_specStrip _ t
 
 /-- A second application changes nothing. -/
-theorem strip_idem {f : Forest} (nd : f.allHandles.Nodup) (hv : validList true f.roots = true)
+theorem strip_idem {f : Forest} {b : Bool} (nd : f.allHandles.Nodup) (hv : validList b f.roots = true)
     {t : HTree} {anc : List HTree} (o : Occurs f t anc) :
     (f.removeInsignificantWhitespace t.handle).removeInsignificantWhitespace t.handle =
       f.removeInsignificantWhitespace t.handle := by
@@ -376,7 +380,7 @@ theorem strip_idem {f : Forest} (nd : f.allHandles.Nodup) (hv : validList true f
     simp only at o'
     have ndg : (f.removeInsignificantWhitespace t.handle).allHandles.Nodup := by
       rw [e]; exact pruned_nodup _ nd
-    have hvg : validList true (f.removeInsignificantWhitespace t.handle).roots = true := by
+    have hvg : validList b (f.removeInsignificantWhitespace t.handle).roots = true := by
       rw [e]; exact pruned_valid _ hv
     have hstrip : pruneText (fun h => (specTopRemoved anc t).contains h) t = specStrip (chainScope anc) t := by
       apply prune_eq_specStrip _ _ t (o.nodup nd)
@@ -407,54 +411,56 @@ theorem strip_idem {f : Forest} (nd : f.allHandles.Nodup) (hv : validList true f
     have hget := o'.get? ndg
     rw [pruneText_handle] at hget
     rw [strip_unfold_some hget, hcoll, hempty]
-    rfl
+    exact consOff_restore _
 
 /-! ### safety of the loop -/
 
-/-- After any prefix of the loop: the state is the pruning by that prefix, the next removal
-    triggers no consolidation, and the nodes still to be removed are untouched text nodes. -/
-theorem strip_safe {f : Forest} (nd : f.allHandles.Nodup) (hv : validList true f.roots = true)
+/-- After any prefix of the loop (which runs with consolidation off): the state is the pruning
+    by that prefix, the next `remove` is a plain `remove_subtree`, and the nodes still to be
+    removed are untouched text nodes. -/
+theorem strip_safe {f : Forest} {b : Bool} (nd : f.allHandles.Nodup) (hv : validList b f.roots = true)
     {t : HTree} {anc : List HTree} (o : Occurs f t anc) {pre post : List Nat} {n : Nat}
     (hsplit : specTopRemoved anc t = pre ++ n :: post) :
-    let g := pre.foldl (fun acc x => (acc.remove x).1) f
-    (g.remove n).1 = g.dropSubtree n ∧ ∀ m ∈ n :: post, g.textOf m = f.textOf m ∧ (f.textOf m).isSome = true := by
+    let g := pre.foldl (fun acc x => (acc.remove x).1) (consOff f)
+    g = pruned (consOff f) (fun h => pre.contains h) ∧
+    (g.remove n).1 = g.dropSubtree n ∧
+    ∀ m ∈ n :: post, g.textOf m = f.textOf m ∧ (f.textOf m).isSome = true := by
   intro g
   have hnd := removed_nodup nd hv o
   rw [hsplit] at hnd
   obtain ⟨ndpre, ndrest, hdisj⟩ := List.nodup_append.1 hnd
-  have hmem : ∀ m ∈ pre ++ n :: post, ∃ k ancn, Occurs f k ancn ∧ k.handle = m ∧ k.value.isText = true := by
+  have hmem : ∀ m ∈ pre ++ n :: post, ∃ k ancn, Occurs (consOff f) k ancn ∧ k.handle = m ∧ k.value.isText = true := by
     intro m hm
     obtain ⟨k, ancn, ok, hh, hk, _⟩ := removed_text nd hv o (hsplit ▸ hm)
-    exact ⟨k, ancn, ok, hh, hk⟩
-  have hgeq : g = pruned f (fun h => pre.contains h) := by
-    have := fold_remove nd hv pre (fun _ => false) ndpre (fun _ _ => rfl)
+    exact ⟨k, ancn, Occurs.of_roots_eq (f := f) (f' := consOff f) rfl ok, hh, hk⟩
+  have nd0 : (consOff f).allHandles.Nodup := nd
+  have hv0 : validList b (consOff f).roots = true := hv
+  have hgeq : g = pruned (consOff f) (fun h => pre.contains h) := by
+    have := fold_remove nd0 hv0 rfl pre (fun _ => false) ndpre (fun _ _ => rfl)
       (fun m hm => hmem m (List.mem_append_left _ hm))
     rw [pruned_none] at this
-    show pre.foldl _ f = _
+    show pre.foldl _ (consOff f) = _
     rw [this]; simp
-  have ndg : g.allHandles.Nodup := by rw [hgeq]; exact pruned_nodup _ nd
-  have hvg : validList true g.roots = true := by rw [hgeq]; exact pruned_valid _ hv
-  have surv : ∀ m ∈ n :: post, ∃ k ancn, Occurs f k ancn ∧ k.handle = m ∧ k.value.isText = true ∧
+  have ndg : g.allHandles.Nodup := by rw [hgeq]; exact pruned_nodup _ nd0
+  have surv : ∀ m ∈ n :: post, ∃ k ancn, Occurs (consOff f) k ancn ∧ k.handle = m ∧ k.value.isText = true ∧
       Occurs g (pruneText (fun h => pre.contains h) k) (ancn.map (pruneText (fun h => pre.contains h))) := by
     intro m hm
     obtain ⟨k, ancn, ok, hh, hk⟩ := hmem m (List.mem_append_right _ hm)
     refine ⟨k, ancn, ok, hh, hk, ?_⟩
     rw [hgeq]
-    apply ok.prune _ hv
+    apply ok.prune _ hv0
     have : m ∉ pre := fun hp => hdisj m hp m hm rfl
     simp [hh, this]
-  constructor
-  · obtain ⟨k, ancn, _, hh, hk, og⟩ := surv n List.mem_cons_self
-    have := remove_eq_drop ndg hvg og (by rw [pruneText_value]; exact hk)
-    rw [pruneText_handle, hh] at this
-    exact this
+  refine ⟨hgeq, ?_, ?_⟩
+  · exact remove_eq_drop_off (by rw [hgeq]; rfl) n
   · intro m hm
     obtain ⟨k, ancn, ok, hh, hk, og⟩ := surv m hm
     have h1 := textOf_at ndg og
-    have h2 := textOf_at nd ok
+    have h2 := textOf_at nd0 ok
     rw [pruneText_handle, pruneText_value, hh] at h1
     rw [hh] at h2
-    rw [h1, h2]
+    have h3 : (consOff f).textOf m = f.textOf m := rfl
+    rw [h1, ← h3, h2]
     refine ⟨rfl, ?_⟩
     cases hv' : k.value <;> rw [hv'] at hk <;> simp [Value.isText] at hk ⊢
 
